@@ -343,6 +343,35 @@ def _python_suites(ctx, prj, py):
             raise AnalysisError(f"{py.site(c)}: end of the suite's range `{t[:60]}` not understood")
 
 
+def rule_R5_pipeline(ctx, prj, rid="R5", clauses=None) -> bool:
+    """the measuring pipeline evaluated on the abstract brace program of sa/measure_eval.py; False when not evaluable"""
+    from ..absint import PyRaise, Unknown
+    from .. import measure_eval as ME
+    ctx.rule(rid, "scan_file evaluated (build_scopes, pairing, marker filter, nesting, unfolding, count_lines, Measurement "
+                  "construction interpreted; the language object a stub that finds headers and brace blocks in the token list it is "
+                  "handed) on a program with a nested function followed by a statement of its parent, a one-line function, a "
+                  "suppressed function, markers elsewhere, comments inside bodies and between functions: names, spans "
+                  "(first header token .. one past the closing token), lengths (distinct lines of own code tokens) and order "
+                  "equal the reference, with and without nested functions, with extra comment lines, with and without the marker", floor=4)
+    fi = prj.func(f"{SC}:scan_file")
+    try:
+        for name, nested, got, want in ME.scenarios(prj):
+            if nested is None:
+                continue
+            clause, text = ME.describe_difference(got, want)
+            mode = "nested functions allowed" if nested else "nested functions not allowed"
+            if clause and (clauses is None or clause in clauses):
+                ctx.viol(rid, f"scan_file/{clause}", fi.site(), f"{name}, {mode}: {text}")
+            elif not clause:
+                ctx.ok(rid, fi.site(), f"{name}, {mode}: {len(got)} measurements as the reference")
+    except (Unknown, PyRaise) as e:
+        ctx.info(f"measuring pipeline not evaluable ({type(e).__name__}: {e}); structural rules decide")
+        ctx.rule(rid, "measuring pipeline not evaluable by the interpreter: structural rules decide", floor=0)
+        ctx.violations[:] = [v for v in ctx.violations if v.rule != rid]
+        return False
+    return True
+
+
 def run(ctx, prj: Project):
     ctx.explanation = (
         "Three structural necessary conditions of the span and length clauses: (R1) every consumer of scope indices works "
@@ -355,7 +384,8 @@ def run(ctx, prj: Project):
     ctx.not_decided = ["each named function is reported exactly once and nothing else is (joint behaviour of find_all, _get_nearest_block, "
                        "_find_scope_blocks_indices, fold_scopes and the Python indentation scan on all token sequences)"]
     ctx.trust("CPython ast", "TokenRange ends are exclusive (established from get_blocks: TokenRange(bt[0], bt[1] + 1), and tokens[start:end])")
-    c04.rule_R1(ctx, prj, rid="R1")
-    rule_R2(ctx, prj)
-    rule_R3(ctx, prj)
+    if not rule_R5_pipeline(ctx, prj):
+        c04.rule_R1(ctx, prj, rid="R1")
+        rule_R2(ctx, prj)
+        rule_R3(ctx, prj)
     rule_R4(ctx, prj)
